@@ -1,6 +1,9 @@
 """C25 -- step scans visit exactly the documented trajectory.
 
-Tie: (C) the Lean model (Pure/Linspace, Pure/StepScan, with the C26 model of snake_cyclers whose
+Tie: (T) the initial value of pos_cache and the num_points / num_intervals expressions of scan_nd are
+re-read from plans.py into lean/BlueskyVerif/Pure/StepScanGenerated.lean (the model and the theorems
+depend on them), and the bodies of move_per_step / one_nd_step must still have the transcribed shape.
+(C) the Lean model (Pure/Linspace, Pure/StepScan, with the C26 model of snake_cyclers whose
 slice offsets are regenerated from the source by props/C26.py::extract) is run against the REAL plan
 generators scan / inner_product_scan / list_scan / grid_scan / list_grid_scan / scan_nd / x2x_scan /
 log_scan, consumed WITHOUT a RunEngine (every message answered with a canned response), on the same
@@ -10,12 +13,14 @@ The property oracle is evaluated on what the implementation emitted.
 """
 from __future__ import annotations
 
+import ast
 import itertools
 import json
 import math
 from fractions import Fraction
 
 import common as C
+import pyexpr as P
 from scanfakes import FakeDetector, FakeMotor
 
 from props import C26 as _C26
@@ -35,8 +40,10 @@ MANIFEST = {
     "otherwise); numpy.linspace/logspace, cycler, toolz.partition; default per_step hooks only; plain motors (no "
     "pseudo-positioners, merge_cycler is the identity); stage/unstage order of motors is hash-ordered in the code and "
     "sorted by the harness; relative-set machinery of x2x_scan is modelled only as offset + final reset (C24 covers it).",
-    "technique": "Lean 4 proof (induction over trajectory / step lists, reuse of the C26 theorems) + correspondence run "
-    "against the real plan generators without a RunEngine",
+    "technique": "Lean 4 proof (induction over trajectory / step lists, reuse of the C26 theorems; core Lean only) over a "
+    "model parametrised by facts re-extracted from plans.py / plan_stubs.py (pos_cache default, num_points / "
+    "num_intervals expressions, statement shapes of move_per_step / one_nd_step) + correspondence run against the real "
+    "plan generators without a RunEngine",
 }
 LEAN_MODULES = ["BlueskyVerif.Props.C25"]
 DRIVER_MODULES = ["BlueskyVerif.Pure.StepScan"]
@@ -48,12 +55,93 @@ ASSUMPTIONS = [
     "log_scan: the values of numpy.logspace are taken as given (PARTIAL)",
     "the plan is consumed without a RunEngine: every message is answered None (read: the device's read())",
 ]
-TRUSTED = ["harness/props/C26.py::extract (slice offsets of snake_cyclers used by the grid trajectories)"]
+TRUSTED = [
+    "harness/props/C26.py::extract (slice offsets of snake_cyclers used by the grid trajectories)",
+    "harness/props/C25.py::extract (pos_cache default, num_points/num_intervals expressions, statement shapes of move_per_step / one_nd_step)",
+]
+
+
+GEN_PATH = C.LEAN / "BlueskyVerif" / "Pure" / "StepScanGenerated.lean"
+
+MOVE_PER_STEP = [
+    "yield Msg('checkpoint')",
+    "grp = _short_uid('set')",
+    "for motor, pos in step.items():\n    if pos == pos_cache[motor]:\n        continue\n    yield Msg('set', motor, pos, group=grp)\n    pos_cache[motor] = pos",
+    "yield Msg('wait', None, group=grp)",
+]
+ONE_ND_STEP = [
+    "take_reading = trigger_and_read if take_reading is None else take_reading",
+    "motors = step.keys()",
+    "yield from move_per_step(step, pos_cache)",
+    "yield from take_reading(list(detectors) + list(motors))",
+]
+
+
+def _len_minus(node, what):
+    """`len(cycler)` -> 0, `len(cycler) - k` -> k."""
+    if ast.unparse(node) == "len(cycler)":
+        return 0
+    if isinstance(node, ast.BinOp) and isinstance(node.op, ast.Sub) and ast.unparse(node.left) == "len(cycler)":
+        if isinstance(node.right, ast.Constant) and isinstance(node.right.value, int) and node.right.value >= 0:
+            return node.right.value
+    raise P.Untranslatable(f"scan_nd {what}: {ast.unparse(node)}")
 
 
 def extract(ctx):
-    # the grid trajectories depend on the generated constants of the snake_cyclers model
-    return _C26.extract(ctx)
+    """(T) facts of plans.scan_nd / plan_stubs.move_per_step / one_nd_step the model is parametrised by:
+    the initial value of pos_cache, the num_points / num_intervals expressions; the bodies of
+    move_per_step and one_nd_step must have the transcribed shape (else: not checked any more)."""
+    facts = dict(_C26.extract(ctx))  # the grid trajectories depend on the snake_cyclers constants
+    tree = ast.parse((C.SRC / "plans.py").read_text())
+    fn = next((n for n in tree.body if isinstance(n, ast.FunctionDef) and n.name == "scan_nd"), None)
+    if fn is None:
+        raise P.Untranslatable("scan_nd not found")
+    md = next((s for s in fn.body if isinstance(s, ast.Assign) and ast.unparse(s.targets[0]) == "_md" and isinstance(s.value, ast.Dict)), None)
+    if md is None:
+        raise P.Untranslatable("scan_nd: `_md = {...}` not found")
+    ent = {k.value: v for k, v in zip(md.value.keys, md.value.values) if isinstance(k, ast.Constant)}
+    if "num_points" not in ent or "num_intervals" not in ent:
+        raise P.Untranslatable("scan_nd: num_points / num_intervals entries missing")
+    a, b = _len_minus(ent["num_points"], "num_points"), _len_minus(ent["num_intervals"], "num_intervals")
+    pc = next((s for s in fn.body if isinstance(s, ast.AnnAssign) and ast.unparse(s.target) == "pos_cache"), None)
+    v = pc.value if pc is not None else None
+    if not (isinstance(v, ast.Call) and ast.unparse(v.func) == "defaultdict" and len(v.args) == 1 and isinstance(v.args[0], ast.Lambda) and not v.args[0].args.args and isinstance(v.args[0].body, ast.Constant)):
+        raise P.Untranslatable("scan_nd: pos_cache initialisation not recognised")
+    init = v.args[0].body.value
+    if init is None:
+        init_lean = "none"
+    elif isinstance(init, int) and not isinstance(init, bool):
+        init_lean = f"some ({init} : Rat)"
+    else:
+        raise P.Untranslatable(f"scan_nd: pos_cache default {init!r}")
+    loop = next((s for s in ast.walk(fn) if isinstance(s, ast.For) and ast.unparse(s.iter) == "list(cycler)"), None)
+    if loop is None or [ast.unparse(x) for x in loop.body] != ["yield from per_step(detectors, step, pos_cache)"]:
+        raise P.Untranslatable("scan_nd: per-step loop not recognised")
+    st = ast.parse((C.SRC / "plan_stubs.py").read_text())
+    for name, want in (("move_per_step", MOVE_PER_STEP), ("one_nd_step", ONE_ND_STEP)):
+        f = next((n for n in st.body if isinstance(n, ast.FunctionDef) and n.name == name), None)
+        if f is None:
+            raise P.Untranslatable(f"{name} not found")
+        have = [ast.unparse(x) for x in P.body_wo_doc(f)]
+        if have != want:
+            raise P.Untranslatable(f"{name} body changed: {have}")
+    facts.update({"pos_cache_default": repr(init), "num_points": f"len(cycler) - {a}", "num_intervals": f"len(cycler) - {b}", "scan_nd_at": f"plans.py:{fn.lineno}"})
+    out = [
+        "-- GENERATED by harness/props/C25.py from src/bluesky/plans.py (scan_nd) -- do not edit.",
+        "namespace BlueskyVerif.Pure.StepScan.Gen",
+        "",
+        "/-- `pos_cache = defaultdict(lambda: <this>)` -/",
+        f"def cacheInit : Option Rat := {init_lean}",
+        "/-- `\"num_points\": len(cycler) - A`: A -/",
+        f"def numPointsMinus : Nat := {a}",
+        "/-- `\"num_intervals\": len(cycler) - B`: B -/",
+        f"def numIntervalsMinus : Nat := {b}",
+        "",
+        "end BlueskyVerif.Pure.StepScan.Gen",
+        "",
+    ]
+    C.write_if_changed(GEN_PATH, "\n".join(out))
+    return facts
 
 
 # ----------------------------------------------------------------------------- helpers
